@@ -39,7 +39,7 @@ Inductive tree := Node (n : nat) (cyc : bool) (kids : list tree).
    (Finding F3: a typed nil pointer has Pointer() == 0 and collides with it.  If /repo
    changes the marker to ^uintptr(0), change this ONE definition to
    18446744073709551615%N; every theorem is stated relative to [marker_key].) *)
-Definition marker_key : N := 0%N.
+Definition marker_key : N := 18446744073709551615%N.
 
 Definition vmap := list (N * N).
 Fixpoint vget (k : N) (m : vmap) : option N :=
